@@ -4,7 +4,8 @@
 (* the expected-key function returns), the attacked words, the guesses offered, the leakage model.                      *)
 (* The specification computes the intermediate under the true key with its own Hyp (tied to the real cipher by the       *)
 (* theorem of C07), the noise-free leakage Model(intermediate), bounded noise in {-1, 0, 1} from a fixed hash, and the    *)
-(* trace matrix: word j of Ws leaks at sample j as 4 * leakage + noise; the other samples are noise.                     *)
+(* trace matrix: word j of Ws leaks at sample j as 4 * leakage + noise; the other samples are noise, the last one is a     *)
+(* CONSTANT sample (saturated / padding point: every statistic is undefined there and must be ignored by the ranking).    *)
 (* (M) identifiability: no offered wrong guess induces the same (or, for sign-free statistics, the complementary)         *)
 (*     leakage column as the true key on this input set - otherwise "ranks first" would be undecidable by symmetry.        *)
 EXTENDS SelDES, Json, IOUtils
@@ -25,5 +26,5 @@ Identifiable == \A gi \in 1..Len(C.guesses) : C.guesses[gi] # C.kw[W] =>
                    /\ Col(C.guesses[gi]) # TrueCol
                    /\ (C.symmetric => \E i \in 1..N : Col(C.guesses[gi])[i] + TrueCol[i] # MaxLeak)        \* not the complementary column
 Noise(i, s) == ((((((i * 7919) + (s * 104729) + C.seed) % 65537) * 75) % 65537) % 3) - 1
-Emit == PrintT(<<"EMIT", ToJson([j |-> j, leak |-> TrueCol, noise |-> [i \in 1..N |-> [s \in 1..C.nsamples |-> Noise(i, s)]]])>>)
+Emit == PrintT(<<"EMIT", ToJson([j |-> j, leak |-> TrueCol, noise |-> [i \in 1..N |-> [s \in 1..C.nsamples |-> IF s = C.nsamples THEN 7 ELSE Noise(i, s)]]])>>)
 =============================================================================
